@@ -45,7 +45,7 @@ DICT_INPUT = {"virtual_world": "vw", "programs": "prog"}
 
 # harness convention (not extracted): content number v of the virtual-world dictionary carries the
 # simulated period PERIODS[min(v // 4, len - 1)] = (first day as offset from 2021-01-01, number of days);
-# v % 4 selects the repair cost.  cache.py builds the dictionaries from this, render() writes it as
+# the repair cost is 200 + v.  cache.py builds the dictionaries from this, render() writes it as
 # `periodOf` into the generated table.
 PERIODS = [(0, 25), (2, 25), (0, 20)]
 
